@@ -73,6 +73,44 @@ inline bool parent_complete(const GridState &st) {
     return true;
 }
 
+// Local polynomial grids with gaps (the usual result of adaptive refinement): the hierarchical surpluses are computed by walking, from every point and in every direction,
+// to the nearest PRESENT ancestor (other coordinates fixed) and on from there. That is exact interpolation iff every loaded point R that is an ancestor-or-equal of P in every
+// direction (exactly the points whose basis function can be non-zero at P) is reachable from P by that walk. dag_closed() decides this from the coordinates alone
+// (1-D hierarchy model) for the single-parent rules localp and localp-zero with order >= 1; for the other rules, order 0, and large sets it falls back to parent_complete().
+// Point sets with a gap that is NOT closed (e.g. (1,1,1) without any point (0,1,*) or (*,1,0)) stay outside the assertion: see finding C04-incomplete-hierarchy-incremental-surpluses.
+inline bool dag_closed(const GridState &st) {
+    const auto &g = st.g; int d = st.spec.dims, n = g.getNumLoaded();
+    if (n == 0) return true;
+    bool single_parent = st.spec.family == F_LOCALP && st.spec.order != 0 && (st.spec.rule == rule_localp || st.spec.rule == rule_localp0);
+    if (!single_parent || n > 450) return parent_complete(st);
+    std::vector<double> lp, np; canonical_points(g, lp, np);
+    std::map<Coord, int> id; for (int i = 0; i < n; i++) id[coord_of(&lp[(size_t)i * (size_t)d], d)] = i;
+    h1d::Kind k = h1d_kind(st.spec);
+    auto chain = [&](double x) { std::vector<double> c; double cur = x; for (int guard = 0; guard < 40; guard++) { auto pr = h1d::parents(k, cur); if (pr.empty()) break; cur = pr[0] + 0.0; c.push_back(cur); } return c; };   // parent, grand-parent, ..., root
+    std::map<double, std::vector<double>> chains;
+    for (auto &kv : id) for (int j = 0; j < d; j++) if (!chains.count(kv.first[(size_t)j])) chains[kv.first[(size_t)j]] = chain(kv.first[(size_t)j]);
+    // nearest present ancestor of point q in direction j (-1: none)
+    auto up = [&](const Coord &q, int j) { Coord t = q; for (double a : chains[q[(size_t)j]]) { t[(size_t)j] = a; auto it = id.find(t); if (it != id.end()) return it->second; } return -1; };
+    std::vector<std::vector<int>> edges((size_t)n); std::vector<Coord> pts((size_t)n);
+    for (auto &kv : id) { pts[(size_t)kv.second] = kv.first; for (int j = 0; j < d; j++) { int a = up(kv.first, j); if (a >= 0) edges[(size_t)kv.second].push_back(a); } }
+    std::vector<char> seen((size_t)n);
+    for (int p = 0; p < n; p++) {
+        std::fill(seen.begin(), seen.end(), 0); std::vector<int> stack = {p}; seen[(size_t)p] = 1;
+        while (!stack.empty()) { int q = stack.back(); stack.pop_back(); for (int a : edges[(size_t)q]) if (!seen[(size_t)a]) { seen[(size_t)a] = 1; stack.push_back(a); } }
+        // every loaded ancestor-or-equal (in the product order) must have been reached: enumerate the product of the chains
+        std::vector<std::vector<double>> opts((size_t)d); size_t total = 1;
+        for (int j = 0; j < d; j++) { opts[(size_t)j] = chains[pts[(size_t)p][(size_t)j]]; opts[(size_t)j].insert(opts[(size_t)j].begin(), pts[(size_t)p][(size_t)j]); total *= opts[(size_t)j].size(); }
+        if (total > 20000) return parent_complete(st);
+        std::vector<size_t> ix((size_t)d, 0);
+        for (size_t c = 0; c < total; c++) {
+            Coord r((size_t)d); for (int j = 0; j < d; j++) r[(size_t)j] = opts[(size_t)j][ix[(size_t)j]];
+            auto it = id.find(r); if (it != id.end() && !seen[(size_t)it->second]) return false;
+            for (int j = 0; j < d; j++) { if (++ix[(size_t)j] < opts[(size_t)j].size()) break; ix[(size_t)j] = 0; }
+        }
+    }
+    return true;
+}
+
 // true when the library's own inverse linear map (x*rate - shift) sends x outside [-1,1] by rounding (known finding *-wavelet-transformed-boundary)
 inline bool lib_canonical_outside(const TasmanianSparseGrid &g, const double *x) {
     if (!g.isSetDomainTransfrom()) return false;
